@@ -83,6 +83,8 @@ CheckParse(r) ==
        /\ r.parse.ok =>
             /\ Need(SameContent(r.parse.m, exp), prop, r.id, "parsed content differs")
             /\ (r.sameTemplate => Need(r.parse.reser = w, prop, r.id, "re-serialization differs"))
+            \* C17 speaks of fields populated "by parsing" too: what a parsed message serializes to is its source, field for field
+            /\ (r.sameTemplate => Need(r.parse.reser = w, "C17", r.id, "the serialized form of the parsed message differs from the fields it was parsed from"))
        /\ Need(r.nonstrict.ok, prop, r.id, "non-strict parse of a valid message failed")
        /\ r.nonstrict.ok => Need(SameContent(r.nonstrict.m, exp), prop, r.id, "non-strict parsed content differs")
 
